@@ -105,7 +105,7 @@ func init() {
 
 func (p *c08) ID() string { return "C08" }
 func (p *c08) Rule() string {
-	return "matrix part (exhaustive): 2^5 presence patterns of one key over (front-matter, later write, earlier write, data/d.yml, theme.yml) x write kinds (Fill/Assign)^2 x value type (string,int,bool,list,nested map) x data shape (map, struct by tag, struct by field name, pointer by tag, pointer by field name, untagged field) x entry (NewFS.Load.writes.Render, New(WithFS) same, writes.Load.Render, writes.RenderFile, writes.RenderString, Vue.Render, Vue.RenderFragment), with bystander keys defined only by config / front-matter; every template is observed through Get and through a probe body reading each key as {{k}}, t=\"{{k}}\", v-text=\"k\", :a=\"k\", {{k == c}}, v-if=\"k == c\" (lists as k[0], nested maps as k.tag; c ranges over every value any source gives the key); files part (exhaustive): every subset of 4 data files (+/- root theme.yml) defining one key; histx part (exhaustive): every valid call sequence of length <= 3 (thorough <= 4) over {Fill a, Fill b, Assign a, Assign c, New, Load a, Load b, observe} x template index on a tree of <= 3 templates; hist part (seeded): random filesystems, keys, shapes and call sequences of length 4..6 (thorough ..8) on trees of <= 3 (thorough 4) templates, with struct / pointer / nil Fill data, by-field-name and untagged keys; every program is followed by a sweep observing every template (Get, Render or RenderString, and RenderString on loaded templates) and the root once more; non-trivial = a case in which at least one judged observation had >= 2 sources defining the key or the tree had >= 2 templates; distinct by the whole case"
+	return "matrix part (exhaustive): 2^5 presence patterns of one key over (front-matter, later write, earlier write, data/d.yml, theme.yml) x write kinds (Fill/Assign)^2 x value type (string,int,bool,list,nested map) x data shape (map, struct by tag, struct by field name, pointer by tag, pointer by field name, untagged field) x entry (NewFS.Load.writes.Render, New(WithFS) same, writes.Load.Render, writes.RenderFile, writes.RenderString, Vue.Render, Vue.RenderFragment), with bystander keys defined only by config / front-matter; the probe body of file-based engines begins with an attribute-less include of a partial whose own front-matter defines every key (that file's front-matter stays in that file); every template is observed through Get and through a probe body reading each key as {{k}}, t=\"{{k}}\", v-text=\"k\", :a=\"k\", {{k == c}}, v-if=\"k == c\" (lists as k[0], nested maps as k.tag; c ranges over every value any source gives the key); files part (exhaustive): every subset of 4 data files (+/- root theme.yml) defining one key; histx part (exhaustive): every valid call sequence of length <= 3 (thorough <= 4) over {Fill a, Fill b, Assign a, Assign c, New, Load a, Load b, observe} x template index on a tree of <= 3 templates; hist part (seeded): random filesystems, keys, shapes and call sequences of length 4..6 (thorough ..8) on trees of <= 3 (thorough 4) templates, with struct / pointer / nil Fill data, by-field-name and untagged keys; every program is followed by a sweep observing every template (Get, Render or RenderString, and RenderString on loaded templates) and the root once more; non-trivial = a case in which at least one judged observation had >= 2 sources defining the key or the tree had >= 2 templates; distinct by the whole case"
 }
 
 // ---------------------------------------------------------------- plan
@@ -797,6 +797,23 @@ func (x *c08Run) prepare() {
 			}
 		}
 	}
+	// file-based engines: the probe body starts with an include tag without attributes of a partial whose
+	// front-matter defines every key - another file's front-matter, which must stay in that file
+	incFM := map[string]string{}
+	if c.Ctor != "new" {
+		for _, k := range c.Keys {
+			switch k.T {
+			case "b":
+			case "i":
+				incFM[k.N] = "9077"
+			default:
+				incFM[k.N] = "incl"
+			}
+			if tag, ok := incFM[k.N]; ok {
+				x.addCand(k.N, tag, "included-file-front-matter")
+			}
+		}
+	}
 	for _, k := range c.Keys {
 		if k.T == "b" {
 			x.cands[k.N] = []string{"true", "false"}
@@ -805,6 +822,9 @@ func (x *c08Run) prepare() {
 	}
 	// probe body: every key in every read position
 	var b strings.Builder
+	if c.Ctor != "new" {
+		b.WriteString(`<template include="partials/c08inc.vuego"></template>`)
+	}
 	for j, k := range c.Keys {
 		path := c08Path(k)
 		fmt.Fprintf(&b, `<p data-m="k%d" :a="%s" t="{{ %s }}">{{ %s }}</p><u data-m="k%d-t" v-text="%s"></u>`, j, path, path, path, j, path)
@@ -826,6 +846,7 @@ func (x *c08Run) prepare() {
 		for _, f := range c.Data {
 			files["data/"+f.Name] = c08YamlDoc(c.Keys, f.V)
 		}
+		files["partials/c08inc.vuego"] = "---\n" + c08YamlDoc(c.Keys, incFM) + "---\n<em data-m=\"inc\"></em>\n"
 		for _, t := range c.Tpls {
 			src := x.body
 			if t.HasFM {
@@ -1202,6 +1223,8 @@ func (x *c08Run) gotClass(m *c08Model, k c08Key, v string) string {
 			}
 		}
 		return "foreign-fm"
+	case "included-file-front-matter":
+		return "front-matter-of-an-included-file"
 	case "assign", "fill":
 		if e, ok := m.w[k.N]; ok {
 			for _, wv := range e.vals {
